@@ -72,15 +72,30 @@ BagMatch(src, got) ==
            cg == [ i \in DOMAIN got |-> Canon(got[i]) ]
        IN \A i \in DOMAIN cs :
             Cardinality({ j \in DOMAIN cs : cs[j] = cs[i] }) = Cardinality({ j \in DOMAIN cg : cg[j] = cs[i] })
-\* UGRID, SCRIP: same faces in the same order; Exodus: same multiset (blocks group by size)
+\* UGRID, SCRIP: same faces in the same order; Exodus: same multiset (blocks group by size).
+\* `got` is compared as it is: a face that comes back with a repeated corner is another face
+\* (the repetition SCRIP uses for short cells is undone by the format's decoder, ScripFaces,
+\* and has to be undone by a reader: a reopened grid has no repeated corners)
 FacesMatch(fmt, src, got) ==
-    LET g == [ i \in DOMAIN got |-> Collapse(got[i]) ]
-    IN IF fmt = "exodus" THEN BagMatch(src, g) ELSE SeqMatch(src, g)
-\* first face position at which a sequence comparison fails (0 = lengths differ / bag)
-FirstBad(fmt, src, got) ==
-    IF fmt = "exodus" \/ Len(src) # Len(got) THEN 0
-    ELSE LET B == { i \in DOMAIN src : ~SameCycle(src[i], Collapse(got[i])) }
-         IN IF B = {} THEN 0 ELSE MinOf(B)
+    IF fmt = "exodus" THEN BagMatch(src, got) ELSE SeqMatch(src, got)
+
+\* a strip of faces with the given sizes (face-size sequence is the generator's parameter):
+\* nodes 0 and 1 are the left bottom / left top corner; a face of size n takes (n + 1) \div 2
+\* corners along the bottom and the rest along the top, counter-clockwise; neighbours share the
+\* edge between them.  The harness only attaches coordinates to this table.
+RECURSIVE StripFrom(_, _, _, _)
+StripFrom(sizes, bl, tl, next) ==
+    IF sizes = <<>> THEN <<>>
+    ELSE LET n  == Head(sizes)
+             b  == (n + 1) \div 2
+             t  == n - b
+             bot == <<bl>> \o [ j \in 1..(b - 1) |-> next + j - 1 ]
+             tops == [ j \in 1..(t - 1) |-> next + (b - 1) + j - 1 ]          \* left to right
+             topRL == [ j \in 1..(t - 1) |-> tops[t - j] ] \o <<tl>>           \* right to left, ending at tl
+             nbl == bot[b]
+             ntl == IF t > 1 THEN tops[t - 1] ELSE tl
+         IN << bot \o topRL >> \o StripFrom(Tail(sizes), nbl, ntl, next + n - 2)
+StripMesh(sizes) == StripFrom(sizes, 0, 1, 2)
 
 (* ---- E-records --------------------------------------------------------------- *)
 NoEnc == [ kind |-> "none", conn |-> <<>>, start |-> 0, hasfill |-> FALSE, blocks |-> <<>>,
@@ -229,10 +244,24 @@ ReadExodus(E, exoReader) ==
               faces |-> [ i \in DOMAIN rows |->
                             LET r == SelectSeq(rows[i], LAMBDA x : x - 1 # FILL /\ x - 1 # -1)
                             IN [ j \in DOMAIN r |-> IF r[j] \in DOMAIN E.pos THEN E.pos[r[j]] ELSE -1 ] ] ]
-ReadScrip(E) == IF ~(ScripRequired \subseteq E.has) THEN Raise
-                ELSE [ st |-> "ok", faces |-> E.corners ]
-ReadBack(E, exoReader) == CASE E.kind = "ugrid"  -> ReadUgrid(E)
-                            [] E.kind = "exodus" -> ReadExodus(E, exoReader)
-                            [] E.kind = "scrip"  -> ReadScrip(E)
-                            [] OTHER -> Raise
+\* scripReader: how the reader undoes the corner repetition of short cells
+\*   "trailing_run"     every trailing corner equal to its predecessor is padding
+\*   "last_column_only" only the last column is looked at (cells two or more corners short keep repeats)
+\*   "keep"             nothing is undone
+RECURSIVE TrimTrail(_)
+TrimTrail(r) == IF Len(r) >= 2 /\ r[Len(r)] = r[Len(r) - 1] THEN TrimTrail(SubSeq(r, 1, Len(r) - 1)) ELSE r
+ReadScrip(E, scripReader) ==
+    IF ~(ScripRequired \subseteq E.has) THEN Raise
+    ELSE [ st |-> "ok",
+           faces |-> [ i \in DOMAIN E.corners |->
+                         LET r == E.corners[i] IN
+                         CASE scripReader = "trailing_run" -> TrimTrail(r)
+                           [] scripReader = "last_column_only" ->
+                                IF Len(r) >= 2 /\ r[Len(r)] = r[Len(r) - 1] THEN SubSeq(r, 1, Len(r) - 1) ELSE r
+                           [] OTHER -> r ] ]
+\* R = [exoReader, scripReader]
+ReadBack(E, R) == CASE E.kind = "ugrid"  -> ReadUgrid(E)
+                    [] E.kind = "exodus" -> ReadExodus(E, R.exoReader)
+                    [] E.kind = "scrip"  -> ReadScrip(E, R.scripReader)
+                    [] OTHER -> Raise
 =============================================================================
